@@ -413,4 +413,50 @@ theorem cover_hyp {ax ax' : List Axis} {j : List Nat} (hr : List.Forall₂ Refin
       refine List.Forall₂.cons ⟨hs a List.mem_cons_self, ?_⟩ (ih (fun b hb => hs b (List.mem_cons_of_mem _ hb)) h2)
       rw [← h.n]; exact h1
 
+
+section
+variable {K : Type} [Field K] [CharZero K]
+
+/-- lower edge of pixel `i` in unit coordinates: `index2coord(i - 1/2) = (i + shifts) / (shape + 2 shifts)` -/
+def edge (n sh : Nat) (i : K) : K := (i + (sh : K)) / ((n : K) + 2 * (sh : K))
+
+theorem edge_eq_coord (n sh : Nat) (i : K) : index2coord n sh (i - 1 / 2) = edge n sh i := by
+  unfold index2coord edge
+  congr 1
+  ring
+
+/-- the children of a refined pixel tile exactly the pixel's interval: lower edge of child `c` of `i` on the fine level
+    is the parent's lower edge plus `c/s` of its width; in particular child 0 starts where the parent starts and the
+    `s`-th edge is the parent's upper edge.  Hence for ANY radial map applied to the unit coordinate (logarithmic,
+    broken-logarithmic grids) the children's volumes `f(upper) - f(lower)` telescope to the parent's volume. -/
+theorem edges_refine (a a' : Axis) (h : Refines a a') (hs : 0 < a.s) (hp : 2 * a.pad ≤ a.n) (i : Nat) (hi : a.pad ≤ i)
+    (c : Nat) (hpos : 0 < a.n + 2 * a.sh) :
+    edge (K := K) a'.n a'.sh (((a.s * (i - a.pad) + c : Nat) : K)) =
+      edge (K := K) a.n a.sh (i : K) + (c : K) / ((a.s : K) * ((a.n : K) + 2 * (a.sh : K))) := by
+  unfold edge
+  have htot := refines_total a a' h hp
+  have hsK : (a.s : K) ≠ 0 := by exact_mod_cast (by omega : a.s ≠ 0)
+  have hd : ((a.n : K) + 2 * (a.sh : K)) ≠ 0 := by
+    have : ((a.n + 2 * a.sh : Nat) : K) ≠ 0 := by exact_mod_cast (by omega : a.n + 2 * a.sh ≠ 0)
+    push_cast at this; exact this
+  have hd' : ((a'.n : K) + 2 * (a'.sh : K)) = (a.s : K) * ((a.n : K) + 2 * (a.sh : K)) := by
+    have : ((a'.n + 2 * a'.sh : Nat) : K) = ((a.s * (a.n + 2 * a.sh) : Nat) : K) := by rw [htot]
+    push_cast at this; exact this
+  rw [hd', h.sh]
+  have hcast : ((a.s * (i - a.pad) + c : Nat) : K) = (a.s : K) * ((i : K) - (a.pad : K)) + (c : K) := by
+    push_cast [Nat.cast_sub hi]; ring
+  rw [hcast]
+  push_cast
+  field_simp
+  ring
+
+/-- `SimpleOpenGridAtLevel`: `index2coord = (i + shifts + 1/2) * distances` and its inverse, exact for every real shift -/
+theorem simple_coord_roundtrip (n : K) (sh dist i : K) (hd : (n + 2 * sh) * dist ≠ 0) :
+    (((i + sh + 1 / 2) / (n + 2 * sh)) * ((n + 2 * sh) * dist)) / ((n + 2 * sh) * dist) * (n + 2 * sh) - sh - 1 / 2 = i := by
+  have h1 : n + 2 * sh ≠ 0 := fun h => hd (by rw [h, zero_mul])
+  rw [mul_div_assoc, div_self hd, mul_one, div_mul_cancel₀ _ h1]
+  ring
+
+end
+
 end NiftyVerif.Grid
